@@ -298,7 +298,275 @@ def gen_curve(rng, n, tier):
         # 2-torsion-like input: y = 0 is not on these curves over Fq (b=4: x^3=-4 has a root?) -- use doubling of points with y=0 only if exists
     return L
 
-GROUPS = {"bigint": gen_bigint, "fp": gen_fp, "tower": gen_tower, "curve": gen_curve}
+# --------------------------------------------------------------------------- scalar multiplication
+def scalar_boundaries(rng, bits=256):
+    top = 1 << bits
+    v = [0, 1, 2, 3, top - 1, top - 2, top >> 1, (top >> 1) - 1]
+    v += [top - j for j in range(1, 34)]
+    if bits == 256:
+        v += [R - 1, R, R + 1, 2 * R - 1, 2 * R, 2 * R + 1, (3 * R) // 2, R // 2, (R + 1) // 2, R - BLS_X ** 2 % R,
+              BLS_X, BLS_X - 1, BLS_X + 1, BLS_X ** 2, BLS_X ** 2 - 1, BLS_X ** 3, BLS_X ** 3 - 1, BLS_X ** 3 + 1, (BLS_X ** 4) % top, Q % R]
+    v += [1 << k for k in range(8, bits, max(8, bits // 16))] + [(1 << k) - 1 for k in range(8, bits, max(8, bits // 16))]
+    v += [rng.getrandbits(bits) for _ in range(8)] + [rng.getrandbits(rng.randrange(1, bits)) for _ in range(8)]
+    # odd values whose low bits make the recoding add back at the top
+    v += [(top - 1) ^ (rng.getrandbits(4) << 1) for _ in range(4)]
+    return [x % top for x in v]
+
+def gen_scalar(rng, n, tier):
+    L = []
+    sb = scalar_boundaries(rng)
+    for (pfx, E) in (("g1_", E1), ("g2_", E2)):
+        sub = [E.gen, E.rand_subgroup_point(rng, 32), E.rand_subgroup_point(rng, 32), None]
+        anyp = sub + [E.rand_curve_point(rng), E.rand_curve_point(rng)]
+        ks = rng.sample(sb, min(len(sb), n)) + [0, 1, R, (1 << 256) - 1, R - 1, 2 * R + 1]
+        for k in ks:
+            p = rng.choice(sub)
+            L.append("%smul %s %s %s" % (pfx, E.jac(p, rng), hx(k, 256), rng.choice(["n", "a"])))
+            L.append("%smula %s %s" % (pfx, E.aff(p, rng), hx(k, 256)))
+        ks = rng.sample(sb, min(len(sb), max(4, n // 2))) + [(1 << 256) - 1, (1 << 256) - 15, (1 << 256) - 17]
+        for k in ks:
+            p = rng.choice(anyp)
+            L.append("%smulw %s %s %s" % (pfx, E.jac(p, rng), hx(k, 256), rng.choice(["n", "a"])))
+            L.append("%smulwa %s %s" % (pfx, E.aff(p, rng), hx(k, 256)))
+            L.append("%smuld %s %s %s" % (pfx, E.jac(p, rng), hx(k, 256), rng.choice(["n", "a"])))
+            L.append("%smulda %s %s" % (pfx, E.aff(p, rng), hx(k, 256)))
+        cb = 128 if pfx == "g1_" else 512
+        for k in rng.sample(scalar_boundaries(rng, cb), max(4, n // 2)) + [(1 << cb) - 1, 0x396c8c005555e1568c00aaab0000aaab if cb == 128 else 1]:
+            p = rng.choice(anyp)
+            L.append("%smulc %s %s" % (pfx, E.aff(p, rng), hx(k, cb)))
+            L.append("%smulcp %s %s %s" % (pfx, E.jac(p, rng), hx(k, cb), rng.choice(["n", "a"])))
+    for p in [E1.gen, E1.rand_subgroup_point(rng, 32), None]:
+        L.append("g1_endo %s %s" % (E1.jac(p, rng), rng.choice(["n", "a"])))
+    for p in [E2.gen, E2.rand_subgroup_point(rng, 32), None]:
+        L.append("g2_frob %s 1 %s" % (E2.jac(p, rng), rng.choice(["n", "a"])))
+        L.append("g2_frob %s 0 %s" % (E2.jac(p, rng), rng.choice(["n", "a"])))
+    for (bits, w) in ((256, 4), (128, 4), (512, 4), (64, 2), (64, 4)):
+        for k in scalar_boundaries(rng, bits)[: (60 if tier != "thorough" else 200)] + [rng.getrandbits(bits) for _ in range(n)]:
+            L.append("wnaf %d %d %s" % (bits, w, hx(k, bits)))
+    for k in sb + [rng.getrandbits(256) for _ in range(2 * n)] + [rng.randrange(R) for _ in range(2 * n)]:
+        L.append("glv %s" % hx(k, 256))
+        L.append("xadic %s" % hx(k, 256))
+    for _ in range(max(6, n // 2)):
+        stream = b""
+        for _c in range(4):
+            for _rej in range(rng.choice([0, 0, 0, 1, 2])):
+                stream += rng.randrange(BLS_X, 1 << 64).to_bytes(8, "little")
+            stream += rng.randrange(BLS_X).to_bytes(8, "little")
+        stream += bytes(rng.getrandbits(8) for _ in range(64))
+        L.append("xrand %s" % stream.hex())
+    # a draw that exceeds r (c3 maximal) followed by an acceptable one
+    big = (BLS_X - 1).to_bytes(8, "little") * 4
+    L.append("xrand %s" % (big + bytes(rng.getrandbits(8) for _ in range(96))).hex())
+    L.append("xrand -")
+    return L
+
+def gen_gt(rng, n, tier):
+    L = []
+    sb = scalar_boundaries(rng)
+    for k in rng.sample(sb, min(len(sb), n)) + [0, 1, R, R - 1, (1 << 256) - 1, 2 * R + 5]:
+        s = rng.choice([1, 2, rng.randrange(R), R - 1])
+        L.append("gt_exp %s %s %s" % (hx(s, 256), hx(k, 256), rng.choice(["n", "a"])))
+    for k in rng.sample(sb, 3) + [(1 << 256) - 1]:
+        L.append("gt_expnd %s %s n" % (hx(rng.randrange(1, R), 256), hx(k, 256)))
+    for _ in range(max(3, n // 3)):
+        L.append("gt_ops %s %s" % (hx(rng.randrange(R), 256), hx(rng.randrange(R), 256)))
+    L.append("gt_ops %s %s" % (hx(5, 256), hx(5, 256)))
+    L.append("gt_ops %s %s" % (hx(0, 256), hx(1, 256)))
+    for _ in range(max(3, n // 3)):
+        stream = b""
+        for _c in range(4):
+            for _rej in range(rng.choice([0, 0, 1])):
+                stream += rng.randrange(BLS_X, 1 << 64).to_bytes(8, "little")
+            stream += rng.randrange(BLS_X).to_bytes(8, "little")
+        stream += bytes(rng.getrandbits(8) for _ in range(64))
+        L.append("gt_rand %s %s" % (hx(rng.randrange(1, R), 256), stream.hex()))
+        L.append("xrand %s" % stream.hex())
+    return L
+
+def gen_pairing(rng, n, tier):
+    L = []
+    def P1(): return rng.choice([E1.gen, E1.rand_subgroup_point(rng, 32), E1.rand_subgroup_point(rng, 64)])
+    def P2(): return rng.choice([E2.gen, E2.rand_subgroup_point(rng, 32), E2.rand_subgroup_point(rng, 64)])
+    L.append("pairing %s %s" % (E1.aff(E1.gen), E2.aff(E2.gen)))
+    L.append("pairing %s %s" % (E1.aff(None), E2.aff(E2.gen)))
+    L.append("pairing %s %s" % (E1.aff(E1.gen), E2.aff(None, rng, canon=False)))
+    L.append("pairing %s %s" % (E1.aff(None, rng, canon=False), E2.aff(None)))
+    for _ in range(n):
+        a, b = P1(), P2()
+        L.append("pairing %s %s" % (E1.aff(a), E2.aff(b)))
+        L.append("pairing_prep %s %s" % (E1.aff(a), E2.aff(b)))
+    for _ in range(max(1, n // 3)):
+        L.append("miller %s %s" % (E1.aff(P1()), E2.aff(P2())))
+        L.append("fexp %s %s" % (e12(rng), rng.choice(["n", "a"])))
+        L.append("expx %s %d %d" % (e12(rng), *rng.choice([(0, 0), (1, 0), (1, 1)])))
+    L.append("pairing_prep %s %s" % (E1.aff(E1.gen), E2.aff(None)))
+    L.append("pairing_prep %s %s" % (E1.aff(None), E2.aff(E2.gen)))
+    # bilinearity against the Spec with boundary scalars
+    sb = scalar_boundaries(rng)
+    for _ in range(max(2, n // 3)):
+        a = rng.choice(sb) % R; b = rng.choice([1, 2, rng.randrange(R)])
+        if a == 0: a = 1
+        L.append("pairing %s %s" % (E1.aff(E1.mul(a % (1 << 64) or 1, E1.gen)), E2.aff(E2.mul(b % (1 << 64) or 1, E2.gen))))
+    shapes = ["-", "a", "p", "aa", "ap", "pa", "pp"] + (["aap", "apa", "paa", "ppa", "pap", "app", "aaa", "ppp"] if tier == "thorough" else [rng.choice(["aap", "apa", "pap", "ppa"])])
+    for sh in shapes:
+        k = 0 if sh == "-" else len(sh)
+        for variant in range(2 if k else 1):
+            pts = []
+            for i in range(k):
+                a, b = P1(), P2()
+                if variant == 1 and i == rng.randrange(k):
+                    if rng.random() < 0.5: a = None
+                    else: b = None
+                pts.append("%s %s" % (E1.aff(a, rng, canon=rng.random() < 0.5), E2.aff(b, rng, canon=rng.random() < 0.5)))
+            L.append(("pairing_sum %s %s" % (sh, " ".join(pts))).strip())
+    return L
+
+def small_x_subgroup_points(E, rng, count):
+    """subgroup points with x-coordinate (c0 and c1) below 2^381 - q, so that x + q is a second 381-bit encoding"""
+    out = []
+    lim = (1 << 381) - Q
+    cof = 0x396c8c005555e1568c00aaab0000aaab if E is E1 else None
+    tries = 0
+    while len(out) < count and tries < 400:
+        tries += 1
+        p = E.rand_subgroup_point(rng, 16)
+        xs = [p[0]] if isinstance(p[0], int) else list(p[0])
+        if all(v < lim for v in xs): out.append(p)
+    return out
+
+def gen_encoding(rng, n, tier):
+    L = []
+    for (g, E, xs) in (("g1", E1, 48), ("g2", E2, 96)):
+        pts = [None, E.gen, E.neg(E.gen)] + [E.rand_subgroup_point(rng, 32) for _ in range(max(2, n // 3))]
+        pts += small_x_subgroup_points(E, rng, 2)     # x + q < 2^381: a second, non-reduced spelling exists
+        nonsub = [E.rand_curve_point(rng) for _ in range(3)]
+        F = E.F
+        def xbytes(x):
+            return x.to_bytes(48, "big") if isinstance(x, int) else x[1].to_bytes(48, "big") + x[0].to_bytes(48, "big")
+        for p in pts + nonsub:
+            for form in ("c", "u"):
+                L.append("enc %s %s %s" % (g, form, E.aff(p, rng, canon=rng.random() < 0.5)))
+        # byte strings: valid encodings built here (the judge re-derives validity itself), then mutations
+        def enc(p, form, greater_bit=None):
+            if p is None:
+                b = bytearray(xs if form == "c" else 2 * xs); b[0] = 0x40
+            else:
+                b = bytearray(xbytes(p[0]) + (b"" if form == "c" else xbytes(p[1])))
+                if form == "c" and greater_bit: b[0] |= 0x20
+            if form == "c": b[0] |= 0x80
+            return b
+        for p in pts + nonsub:
+            for form in ("c", "u"):
+                for gb in ((0, 1) if form == "c" and p is not None else (0,)):
+                    b = enc(p, form, gb)
+                    for chk in ("1", "0"):
+                        L.append("dec %s %s %s %s" % (g, form, chk, bytes(b).hex()))
+                    muts = []
+                    for bit in (0x80, 0x40, 0x20):
+                        m = bytearray(b); m[0] ^= bit; muts.append(m)
+                    m = bytearray(b); m[-1] ^= 1; muts.append(m)
+                    m = bytearray(b); m[rng.randrange(1, len(b))] ^= 1 << rng.randrange(8); muts.append(m)
+                    if p is not None:
+                        # x + q (still below 2^381 for small x): a non-reduced coordinate
+                        x0 = p[0] if isinstance(p[0], int) else p[0][0]
+                        if x0 + Q < (1 << 381):
+                            px = (x0 + Q) if isinstance(p[0], int) else ((x0 + Q), p[0][1])
+                            m = enc((px, p[1]), form, gb); muts.append(m)
+                        if not isinstance(p[0], int) and p[0][1] + Q < (1 << 381):
+                            m = enc(((p[0][0], p[0][1] + Q), p[1]), form, gb); muts.append(m)
+                        if form == "u":
+                            y0 = p[1] if isinstance(p[1], int) else p[1][0]
+                            if y0 + Q < (1 << 381):
+                                py = (y0 + Q) if isinstance(p[1], int) else ((y0 + Q), p[1][1])
+                                muts.append(enc((p[0], py), form, gb))
+                            muts.append(enc((p[0], F.add(p[1], F.one)), form, gb))     # off curve
+                    for m in muts:
+                        L.append("dec %s %s 1 %s" % (g, form, bytes(m).hex()))
+        # small x: guaranteed x + q < 2^381, on-curve, cofactor-cleared so in the subgroup
+        for _ in range(max(2, n // 4)):
+            L.append("dec %s c 1 %s" % (g, bytes(rng.getrandbits(8) for _ in range(xs)).hex()))
+            L.append("dec %s u 1 %s" % (g, bytes(rng.getrandbits(8) for _ in range(2 * xs)).hex()))
+            L.append("dec %s c 0 %s" % (g, bytes(rng.getrandbits(8) for _ in range(xs)).hex()))
+        for _ in range(n):
+            x = F.rand(rng)
+            L.append("fromx %s %s %d" % (g, F.hex(x), rng.randrange(2)))
+        L.append("fromx %s %s 0" % (g, F.hex(F.zero)))
+    return L
+
+def gen_sampling(rng, n, tier):
+    L = []
+    for _ in range(n):
+        L.append("zp_hash %s" % bytes(rng.getrandbits(8) for _ in range(32)).hex())
+    for top in (0x00, 0x73, 0x74, 0x7f, 0x80, 0xf3, 0xff):
+        L.append("zp_hash %02x%s" % (top, bytes(rng.getrandbits(8) for _ in range(31)).hex()))
+    L.append("zp_hash %s" % R.to_bytes(32, "big").hex()); L.append("zp_hash %s" % (R - 1).to_bytes(32, "big").hex())
+    L.append("zp_hash %s" % ((1 << 255) | R).to_bytes(32, "big").hex()); L.append("zp_hash %s" % ("ff" * 32))
+    for _ in range(max(4, n // 2)):
+        k = rng.randrange(0, 3); st = b""
+        for _j in range(k): st += (rng.randrange(R, 1 << 255) | (rng.getrandbits(1) << 255)).to_bytes(32, "little")
+        st += (rng.randrange(R) | (rng.getrandbits(1) << 255)).to_bytes(32, "little")
+        L.append("zp_rand %s" % st.hex())
+    for _ in range(max(3, n // 3)):
+        L.append("g1_hash %s" % bytes(rng.getrandbits(8) for _ in range(48)).hex())
+        L.append("id_hash %s" % bytes(rng.getrandbits(8) for _ in range(48)).hex())
+        L.append("g2_hash %s" % bytes(rng.getrandbits(8) for _ in range(96)).hex())
+    for h in ("00" * 48, "ff" * 48, Q.to_bytes(48, "big").hex(), (Q - 1).to_bytes(48, "big").hex()):
+        L.append("g1_hash %s" % h); L.append("id_hash %s" % h)
+    L.append("g2_hash %s" % ("ff" * 96)); L.append("g2_hash %s" % ("00" * 96))
+    for _ in range(max(2, n // 4)):
+        L.append("g1_rand %s" % bytes(rng.getrandbits(8) for _ in range(49 * 8)).hex())
+        L.append("g2_rand %s" % bytes(rng.getrandbits(8) for _ in range(97 * 8)).hex())
+    # forced rejection of the field element (>= q) before an acceptable draw
+    bad = (rng.randrange(Q, 1 << 381)).to_bytes(48, "little").hex()
+    L.append("g1_rand %s%s" % (bad, bytes(rng.getrandbits(8) for _ in range(49 * 8)).hex()))
+    return L
+
+def gen_capi(rng, n, tier):
+    L = ["capi consts"]
+    for (g, E, hs) in (("g1", E1, 48), ("g2", E2, 96)):
+        pool = [None, E.gen, E.rand_subgroup_point(rng, 32), E.rand_curve_point(rng)]
+        def J(p): return E.jac(p, rng, rng.choice(["rand", "one", "canon"]))
+        for _ in range(n):
+            p, s = rng.choice(pool), rng.choice(pool)
+            L.append("capi add %s %s %s" % (g, J(p), J(s)))
+            L.append("capi add_alias_b %s %s %s" % (g, J(p), J(s)))
+            L.append("capi add_mixed %s %s %s" % (g, J(p), E.aff(s, rng, canon=rng.random() < 0.5)))
+            L.append("capi equal %s %s %s" % (g, J(p), J(rng.choice([p, s]))))
+            L.append("capi affine_equal %s %s %s" % (g, E.aff(p, rng), E.aff(rng.choice([p, s]), rng)))
+        for p in pool:
+            for fn in ("negate", "double", "from_projective"):
+                L.append("capi %s %s %s" % (fn, g, J(p)))
+            for fn in ("from_affine", "affine_negate"):
+                L.append("capi %s %s %s" % (fn, g, E.aff(p, rng, canon=rng.random() < 0.5)))
+            for comp in ("0", "1"):
+                L.append("capi marshal %s %s %s" % (g, E.aff(p, rng), comp))
+        sub = [E.gen, E.rand_subgroup_point(rng, 32), None]
+        for k in rng.sample(scalar_boundaries(rng), 3) + [0, R, (1 << 256) - 1]:
+            L.append("capi multiply %s %s %s" % (g, J(rng.choice(sub)), hx(k, 256)))
+            L.append("capi multiply_affine %s %s %s" % (g, E.aff(rng.choice(sub), rng), hx(k, 256)))
+        for _ in range(max(2, n // 3)):
+            L.append("capi from_hash %s %s" % (g, bytes(rng.getrandbits(8) for _ in range(hs)).hex()))
+            L.append("capi random %s %s" % (g, bytes(rng.getrandbits(8) for _ in range((hs + 1) * 8)).hex()))
+            for comp in ("0", "1"):
+                for chk in ("0", "1"):
+                    nb = hs * (1 if comp == "1" else 2)
+                    L.append("capi unmarshal %s %s %s %s" % (g, comp, chk, bytes(rng.getrandbits(8) for _ in range(nb)).hex()))
+    for _ in range(max(2, n // 3)):
+        a = e12(rng); b = e12(rng)
+        L.append("capi gt_add gt %s %s" % (a, b)); L.append("capi gt_negate gt %s" % a); L.append("capi gt_double gt %s" % a)
+        L.append("capi gt_equal gt %s %s" % (a, rng.choice([a, b]))); L.append("capi gt_marshal gt %s" % a)
+        L.append("capi gt_multiply gt %s %s" % (a, hx(rng.getrandbits(256), 256)))
+        L.append("capi gt_multiply_random gt %s %s" % (a, bytes(rng.getrandbits(8) for _ in range(96)).hex()))
+        L.append("capi zp_from_hash misc %s" % bytes(rng.getrandbits(8) for _ in range(32)).hex())
+        L.append("capi zp_random misc %s" % bytes(rng.getrandbits(8) for _ in range(96)).hex())
+    pts1 = [E1.gen, E1.rand_subgroup_point(rng, 32), None]; pts2 = [E2.gen, E2.rand_subgroup_point(rng, 32), None]
+    for fn in ("pairing", "prepared_pairing", "prepare"):
+        for _ in range(2):
+            L.append("capi %s misc %s %s" % (fn, E1.aff(rng.choice(pts1)), E2.aff(rng.choice(pts2))))
+    return L
+
+GROUPS = {"bigint": gen_bigint, "fp": gen_fp, "tower": gen_tower, "curve": gen_curve, "scalar": gen_scalar, "gt": gen_gt,
+          "pairing": gen_pairing, "encoding": gen_encoding, "sampling": gen_sampling, "capi": gen_capi}
 
 def generate(group, seed, n, tier):
     rng = random.Random("%s/%d" % (group, seed))
